@@ -140,7 +140,7 @@ PROP_ASSUMPTIONS = {
             "bounded in program shape: two straight-line programs, one sub-circuit called twice, one inconsistent pair of calls"],
     "C13": ["evaluation-level statement follows from the pointwise coefficient clauses by linearity of finite sums (lemma L3, on paper / Lean)",
             "gmpy2 absent: the pure-Python branch of pysnark.gmpy is what runs and what is verified; builtin pow(x, p-2, p) through Fermat's little theorem",
-            "libsnark (C++ binding, absent) is not covered"],
+            "libsnark: the C++ binding is absent; the backend's primitives (privval, pubval, zero, one, add_constraint, fieldinverse, get_modulus) are verified at call level against an ASSUMED contract of the binding (contracts/backend_c.py GLib*); the algebra of libsnark.LinearCombination is C++ and not covered"],
     "C14": ["float operands are enumerated concrete values representable at the resolution; error-ignoring mode is out of scope (values unspecified there)"],
     "C15": ["array lengths 1..3 (thorough ..6), 2-D 2x2; single accesses (sequences of accesses follow from whole-array postconditions by composition)"],
     "C16": ["packer schemas enumerated: PackBool, PackIntMod(m) for m in {1,2,5,8,16,100}, a flat and a nested PackList/PackRepeat"],
